@@ -1051,3 +1051,185 @@ func runMatrix(c *hx.Ctx) {
 		}
 	}
 }
+
+// ---- the Lean model of assignability (Model/Assignable.lean) vs go/types ----
+
+// mEnc is the type in the prefix notation of the driver's `asg` operation, "" when the type is
+// outside the model's universe (channels: direction rule).
+func mEnc(t *mtype) string {
+	named := func(id int, under, vms, pms string) string {
+		cnt := func(ms string) string {
+			if ms == "" {
+				return "0"
+			}
+			return fmt.Sprintf("%d %s", len(strings.Fields(ms)), ms)
+		}
+		return fmt.Sprintf("nm %d %s %s %s", id, under, cnt(vms), cnt(pms))
+	}
+	basic := func(src string) string {
+		switch src {
+		case "bool":
+			return "b"
+		case "int":
+			return "i"
+		case "string":
+			return "s"
+		case "byte":
+			src = "uint8"
+		case "rune":
+			src = "int32"
+		}
+		b := mTypeBySrc[src]
+		if b == nil || b.cls != "basic" {
+			return ""
+		}
+		return named(100+b.idx, fmt.Sprintf("l %d", 100+b.idx), "", "")
+	}
+	var enc func(src string) string
+	enc = func(src string) string {
+		if e := basic(src); e != "" {
+			return e
+		}
+		switch src {
+		case "MyInt":
+			return named(1, "i", "", "")
+		case "MyStr":
+			return named(2, "s", "", "")
+		case "MyBool":
+			return named(3, "b", "", "")
+		case "MyFloat":
+			return named(4, basic("float64"), "", "")
+		case "tp.Dur":
+			return named(5, basic("int64"), "String", "")
+		case "any", "interface{}":
+			return "if 0"
+		case "Empty":
+			return named(6, "if 0", "", "")
+		case "error":
+			return named(7, "if 1 Error", "", "")
+		case "MyErr":
+			return named(8, enc("error"), "", "")
+		case "tp.Stringer":
+			return named(9, "if 1 String", "", "")
+		case "tp.Nobody":
+			return named(10, "if 1 NobodyImplementsThis", "", "")
+		case "tp.Both":
+			return named(11, "if 2 Error String", "", "")
+		case "tp.Buf":
+			return named(12, "l 12", "", "String")
+		case "tp.Err":
+			return named(13, "l 13", "Error", "")
+		case "tp.PErr":
+			return named(14, "l 13", "", "Error") // struct{ Msg string }, as tp.Err
+		case "tp.ES":
+			return named(15, "l 51", "Error String", "") // struct{}
+		case "PInt":
+			return named(16, "p i", "", "")
+		case "func()":
+			return "l 20"
+		case "func(int) string":
+			return "l 21"
+		case "Fn":
+			return named(17, "l 21", "", "")
+		case "func(MyInt) string":
+			return "l 22"
+		case "Sl":
+			return named(18, "sl i", "", "")
+		case "MyBytes":
+			return named(19, "sl "+basic("uint8"), "", "")
+		case "[2]int":
+			return "l 30"
+		case "[3]int":
+			return "l 31"
+		case "Arr":
+			return named(20, "l 30", "", "")
+		case "[2]MyInt":
+			return "l 32"
+		case "map[string]int":
+			return "l 40"
+		case "Mp":
+			return named(21, "l 40", "", "")
+		case "map[MyStr]int":
+			return "l 41"
+		case "struct {\n\tA int\n\tB string\n}":
+			return "l 50"
+		case "St":
+			return named(22, "l 50", "", "")
+		case "St2":
+			return named(23, "l 50", "", "")
+		case "struct{}":
+			return "l 51"
+		case "struct {\n\tA MyInt\n\tB string\n}":
+			return "l 52"
+		}
+		if e, ok := strings.CutPrefix(src, "*"); ok {
+			if in := enc(e); in != "" {
+				return "p " + in
+			}
+		}
+		if e, ok := strings.CutPrefix(src, "[]"); ok {
+			if in := enc(e); in != "" {
+				return "sl " + in
+			}
+		}
+		return ""
+	}
+	return enc(t.src)
+}
+
+// validateAssignableModel: `var x T = v` for every pool type T and v a variable of every pool
+// type, a comparison result, nil — the model's AVal.assignableTo against go/types' verdict
+// (specification validation; Build is not involved).
+func validateAssignableModel(c *hx.Ctx) error {
+	if c.D == nil {
+		return nil
+	}
+	type probe struct {
+		line string
+		cell *mcell
+	}
+	var probes []probe
+	for _, t := range mTypes {
+		te := mEnc(t)
+		if te == "" {
+			c.Res.Hist("assignability-model:type-outside")
+			continue
+		}
+		for _, v := range mValues {
+			var ve string
+			switch {
+			case v.cat == "var":
+				if e := mEnc(v.typ); e != "" {
+					ve = "t " + e
+				}
+			case v.cat == "ubool":
+				ve = "ub"
+			case v.cat == "nil" && t.cls != "func" && t.cls != "map":
+				ve = "nil"
+			}
+			if ve != "" {
+				probes = append(probes, probe{"C03 asg " + ve + " " + te, &mcell{ctx: "var-decl", t: t, v: v}})
+			}
+		}
+	}
+	lines := make([]string, len(probes))
+	for i, p := range probes {
+		lines[i] = p.line
+	}
+	ans, err := c.D.Batch(lines)
+	if err != nil {
+		return err
+	}
+	for i, p := range probes {
+		src := (&mprog{cells: []*mcell{p.cell}}).src()
+		o := checkTypes(src)
+		c.Res.SpecChecks["assignability-model-vs-go/types"]++
+		want := fmt.Sprintf("ok %v", o.OK)
+		c.Res.Hist("assignability-model:" + p.cell.v.cat + ":" + want)
+		if ans[i] != want {
+			c.Res.AddBreak(proto.Break{Kind: "correspondence", Name: "assignability-model-vs-go/types", Case: p.line, Human: src,
+				Impl: want + "   [" + o.Msg + "]", Model: ans[i]})
+		}
+	}
+	return nil
+}
